@@ -766,8 +766,15 @@ def solve_exact(assertions, timeout_ms=VC_TIMEOUT_MS, want_model=True):
         s2.set("timeout", ms)
         s2.add(*assertions)
         return s2, s2.check()
+    def default_som(ms):
+        # polynomial identities hidden behind purified quotients (q * den = num) become linear over the monomials once
+        # every assertion is expanded into a sum of monomials
+        s3 = z3.Solver()
+        s3.set("timeout", ms)
+        s3.add(*[z3.simplify(a, som=True) for a in assertions])
+        return s3, s3.check()
     smt2 = None
-    for frac, engine, name in ((24, default, "z3"), (24, nlsat, "z3-nlsat"), (3, default, "z3"), (3, nlsat, "z3-nlsat")):
+    for frac, engine, name in ((24, default, "z3"), (24, nlsat, "z3-nlsat"), (4, default_som, "z3-som"), (3, default, "z3"), (3, nlsat, "z3-nlsat")):
         try:
             s, r = engine(max(500, timeout_ms // frac))
         except z3.Z3Exception:
@@ -780,6 +787,11 @@ def solve_exact(assertions, timeout_ms=VC_TIMEOUT_MS, want_model=True):
         v = cvc5_check(smt2, max(1000, timeout_ms // 4))
         if v in ("sat", "unsat"):
             return (v, None, "cvc5", time.time() - t0)
+    dump = os.environ.get("VF_DUMP_UNKNOWN")
+    if dump and smt2 is not None:       # debugging aid: keep the query no engine decided
+        os.makedirs(dump, exist_ok=True)
+        with open(os.path.join(dump, f"unknown_{os.getpid()}_{int(time.time() * 1000) % 10 ** 8}.smt2"), "w") as f:
+            f.write(smt2)
     return ("unknown", None, "none", time.time() - t0)
 
 
@@ -1127,7 +1139,15 @@ class PathState:
         return r
 
     def _final_check(self, extra):
-        return solve_exact(self.pc + extra, self.ex.vc_timeout_ms)
+        if extra:
+            return solve_exact(self.pc + extra, self.ex.vc_timeout_ms)
+        key = len(self.pc)              # the path condition only grows: same length = same query
+        hit = getattr(self, "_final_cache", None)
+        if hit is None or hit[0] != key:
+            self._final_cache = hit = (key, solve_exact(self.pc, self.ex.vc_timeout_ms))
+            return hit[1]
+        v, m, b, _ = hit[1]
+        return v, m, b + "-cached", 0.0
 
     def _model_dict(self, model):
         if model is None:
